@@ -119,11 +119,17 @@ func refEval(cards []string, short bool) RefHand {
 	return h
 }
 
-// category index in a given ranking table (the variant's order of categories)
-func catIndex(pr combination.PowerRankings, cat int) int {
-	want := catToCombination[cat]
-	for i, c := range pr {
-		if c == want {
+// The variant's order of categories, stated independently of the tables shipped in /repo:
+// standard = ... straight < flush < full house ...; short deck = ... straight < full house < flush ...
+var variantOrder = map[bool][]int{
+	false: {catHighCard, catPair, catTwoPair, catTrips, catStraight, catFlush, catFullHouse, catQuads, catStraightFlush},
+	true:  {catHighCard, catPair, catTwoPair, catTrips, catStraight, catFullHouse, catFlush, catQuads, catStraightFlush},
+}
+
+// category index under the variant's ranking (shortTable = short-deck ranking)
+func catIndex(shortTable bool, cat int) int {
+	for i, c := range variantOrder[shortTable] {
+		if c == cat {
 			return i
 		}
 	}
@@ -148,9 +154,9 @@ func (a RefKey) Less(b RefKey) bool {
 	return false
 }
 
-func refKey(cards []string, short bool, pr combination.PowerRankings) (RefKey, RefHand) {
+func refKey(cards []string, short bool, shortTable bool) (RefKey, RefHand) {
 	h := refEval(cards, short)
-	return RefKey{catIndex(pr, h.Cat), h.TB}, h
+	return RefKey{catIndex(shortTable, h.Cat), h.TB}, h
 }
 
 func combosOf(xs []string, k int) [][]string {
@@ -192,10 +198,10 @@ func admissible(hole, board []string, req int) [][]string {
 
 // bestAdmissible returns the best reference key over all admissible selections; unspecified
 // selections are left out; tainted is true when an unspecified selection exists at all
-func bestAdmissible(hole, board []string, req int, short bool, pr combination.PowerRankings) (best RefKey, bestCards []string, tainted bool, ok bool) {
+func bestAdmissible(hole, board []string, req int, short bool, shortTable bool) (best RefKey, bestCards []string, tainted bool, ok bool) {
 	best = RefKey{Idx: -1}
 	for _, sel := range admissible(hole, board, req) {
-		k, h := refKey(sel, short, pr)
+		k, h := refKey(sel, short, shortTable)
 		if h.Unspecified {
 			tainted = true
 			continue
